@@ -1,4 +1,5 @@
 import DatamonVerif.Props.C01
+import DatamonVerif.Generated.Facts
 /-! C03 — reads never return corrupted content as if it were valid.
 
 The store `s` below is ARBITRARY: it stands for the blob store after any damage whatsoever (bit
@@ -173,6 +174,11 @@ theorem C03_root_selfconsistent (H : Hash) (L : Nat) (blob : Bytes) (ks : List B
     · split at h
       · rename_i hk; simp only [Except.ok.injEq] at h; rw [← h]; exact hk
       · simp at h
+
+/-- every reader path of `pkg/cafs/reader.go` (sequential Read, ReadAt/prefetch, WriteTo into a
+    WriterAt) applies the short-last-leaf verification convention that `fetchLeaf` models
+    (regenerated fact: three sites) -/
+theorem C03_facts : Facts.cafsVerifyConventionSites = 3 := by decide
 
 /-- a toy hash for witnesses: parameters and length are part of the digest -/
 def toyH : Hash := fun p b => [UInt8.ofNat p.off, UInt8.ofNat b.length] ++ b
